@@ -1,5 +1,6 @@
 //! Harness table: every entry is a Kani proof harness and a native replay
 //! target of the same name.
+use crate::fob::{self, OCfg};
 use crate::fu::{self, UCfg};
 use crate::fub::{self, StepCfg};
 
@@ -53,6 +54,14 @@ harness!(fu_poll_2, fu::step_poll(&UCfg { caps: [2, 0, 0], n: 1, selfwakes: 1, q
 harness!(fu_push_12, fu::step_push(&UCfg { caps: [1, 2, 0], n: 2, selfwakes: 0, quiet: true, cursor: 0 }));
 harness!(fu_push_2, fu::step_push(&UCfg { caps: [2, 0, 0], n: 1, selfwakes: 0, quiet: true, cursor: 0 }));
 
+// FuturesOrderedBounded: symbolic 64-bit position counter (wrap + re-basing for every value)
+harness!(fob_poll_c2, fob::step_poll(&OCfg { cap: 2, max_parked: 1, selfwakes: 0 }));
+harness!(fob_poll_c2_p2, fob::step_poll(&OCfg { cap: 2, max_parked: 2, selfwakes: 1 }));
+harness!(fob_push_c2, fob::step_push(&OCfg { cap: 2, max_parked: 1, selfwakes: 0 }));
+harness!(fob_new, fob::construct(2));
+harness!(x_probe_rebase, fob::probe_rebase());
+harness!(x_fob_p0, fob::step_poll(&OCfg { cap: 1, max_parked: 0, selfwakes: 0 }));
+harness!(x_fob_p1, fob::step_poll(&OCfg { cap: 1, max_parked: 1, selfwakes: 0 }));
 harness!(x_h1e0, fub::step_poll(&StepCfg { cap: 2, selfwakes: 0, mon: fub::M_ALL, env_budget: 0, inflight_ok: false, quiet: false, handles: true }));
 harness!(x_h0e1, fub::step_poll(&StepCfg { cap: 2, selfwakes: 0, mon: fub::M_ALL, env_budget: 1, inflight_ok: false, quiet: false, handles: false }));
 
@@ -72,6 +81,11 @@ pub fn table() -> &'static [(&'static str, fn())] {
         ("fu_poll_12", fu_poll_12),
         ("fu_poll_12_quiet", fu_poll_12_quiet),
         ("fu_poll_2", fu_poll_2),
+        ("fob_poll_c2", fob_poll_c2),
+        ("fob_poll_c2_p2", fob_poll_c2_p2),
+        ("fob_push_c2", fob_push_c2),
+        ("fob_new", fob_new),
+        ("x_probe_rebase", x_probe_rebase),
         ("fu_poll_12_c1", fu_poll_12_c1),
         ("fu_poll_12_c2", fu_poll_12_c2),
         ("fu_push_12", fu_push_12),
@@ -81,4 +95,40 @@ pub fn table() -> &'static [(&'static str, fn())] {
         ("fub_poll_c2_inflight", fub_poll_c2_inflight),
         ("fub_poll_c2_handles", fub_poll_c2_handles),
     ]
+}
+
+#[cfg_attr(kani, kani::proof)]
+pub fn x_probe_nostub() {
+    crate::fob::probe_rebase()
+}
+
+#[cfg_attr(kani, kani::proof)]
+pub fn x_probe2() {
+    let mut f: futures_buffered::FuturesOrderedBounded<crate::child::Fut> = futures_buffered::FuturesOrderedBounded::new(2);
+    let (a, b) = f.verif_rebase_probe();
+    assert!(a == 0, "X:placeholder capacity not 0");
+    assert!(b == 1, "X:taken capacity not 1");
+    core::mem::forget(f);
+}
+
+#[cfg_attr(kani, kani::proof)]
+pub fn x_probe4() {
+    let (a, b, c, d) = futures_buffered::FuturesOrderedBounded::<crate::child::Fut>::verif_probe_caps();
+    assert!(a == 0, "X:default");
+    assert!(b == 0, "X:new");
+    assert!(c == 0, "X:vecnew");
+    assert!(d == 0, "X:taken");
+}
+
+#[cfg_attr(kani, kani::proof)]
+pub fn x_probe5() {
+    let mut f: futures_buffered::FuturesOrderedBounded<crate::child::Fut> = futures_buffered::FuturesOrderedBounded::new(2);
+    let r = f.verif_probe5();
+    assert!(r[0] == 1, "X:c0");
+    assert!(r[1] == 0, "X:cf");
+    assert!(r[2] == 0, "X:c1 after replace");
+    assert!(r[3] == 1, "X:ct");
+    assert!(r[4] == 0, "X:l1");
+    assert!(r[5] == 0, "X:c2 after take");
+    core::mem::forget(f);
 }
